@@ -585,7 +585,10 @@ class SRat:
 
     def __trunc__(s):
         a, b = _e(s.a), _e(s.b)
-        return SInt(z3.If(a >= 0, a / b, -((-a) / b)))
+        # fork on the sign of the numerator (usually one-sided) instead of building nested if-then-else terms
+        if bool(SBool(a >= 0)):
+            return SInt(a / b)
+        return SInt(-((-a) / b))
 
     __int__ = None  # set below
 
